@@ -543,6 +543,7 @@ type FuncSpec struct {
 	IsExt    bool
 	Pure     bool
 	Params   []SParam // for ext/iface specs: parameter names
+	Locals   []localDecl // local variables (declaration order, with types) when the contract was written
 	Sig      []string // names of receiver and parameters when the contract was written (contract names survive a renaming)
 	Results  []string
 	File     string
@@ -616,7 +617,7 @@ func NewSpecs() *Specs {
 	return &Specs{Funcs: map[string]*FuncSpec{}, SpecFns: map[string]*SpecFn{}, Preds: map[string]*Pred{}, Lemmas: map[string]*Lemma{}}
 }
 
-var clauseKeywords = map[string]bool{"spec": true, "pred": true, "ghost": true, "lemma": true, "func": true, "sig": true, "iface": true,
+var clauseKeywords = map[string]bool{"spec": true, "pred": true, "ghost": true, "lemma": true, "func": true, "sig": true, "locals": true, "iface": true,
 	"extern": true, "requires": true, "ensures": true, "modifies": true, "loop": true, "at": true, "observe": true, "opaque": true,
 	"row": true, "exit": true, "entry": true, "props": true, "inline": true, "trusted": true, "table": true, "fact": true, "pure": true,
 	"params": true, "results": true, "opt": true, "just": true, "proof": true}
@@ -1184,6 +1185,11 @@ func (sp *Specs) LoadFile(path, pkgRel string) error {
 					cur.Sig = append(cur.Sig, r)
 				}
 			}
+		case "locals":
+			if cur == nil {
+				return fail(ln, fmt.Errorf("locals outside func"))
+			}
+			cur.Locals = append(cur.Locals, parseLocals(rest)...)
 		case "inline":
 			cur.Inline = true
 		case "trusted":
